@@ -211,6 +211,56 @@ PROPS = {
         "assumptions": COMMON_ASSUMPTIONS + ["'returns only after every invocation has returned' is schedule-dependent: delays "
                                              "make an early return observable with high probability, not certainty"],
     },
+    "C18": {
+        "test": "TestC18", "variant": "ipa",
+        "quick": {"shards": 16, "timeout": 1800},
+        "thorough": {"shards": 16, "timeout": 10800},
+        "rule": "all 512 + 510 precomputed table entries (hook); DivideOnDomain at ALL 256 indices for, per shard, one dense "
+                "polynomial, one unit vector and (split over shards) X^255 in evaluation form (thorough: +6 more per shard, the "
+                "all-(r-1) polynomial, a sparse one); ComputeBarycentricCoefficients at z in {256, 257, 2^64, r-1, uniform} for each; "
+                "plus rapid cases polynomial kind x (index | point class incl. limb-aligned and small-Montgomery points). "
+                "Non-trivial = non-constant polynomial; grid cases counted, distinct by construction.",
+        "oracle": "coefficient-form reference in math/big: Newton interpolation, Horner evaluation, synthetic division of "
+                  "p(X)-p(k) by X-k evaluated back over 0..255 (including position k); tables == defining products A'(x_i), "
+                  "1/A'(x_i), 1/k, -1/k; input vector unchanged",
+        "assumptions": COMMON_ASSUMPTIONS,
+    },
+    "C17": {
+        "test": "TestC17", "variant": "elem",
+        "quick": {"shards": 16, "timeout": 1200},
+        "thorough": {"shards": 16, "timeout": 7200},
+        "rule": "v = g^e * u with g the published primitive 2^32-th root of unity and u of odd order, e chosen so that the "
+                "2-adic component of v has a structured discrete log: for every block position 0..3 and every byte value 0..255 "
+                "with the other blocks 0 / 0xFF / seed-dependent (enumerated completely in both tiers, for SqrtPrecomp and for "
+                "GetPointFromX with both sign choices); all 2^k-th roots of unity; 0, 1, p-1; rapid cases: dyadic with per-block "
+                "classes, constants (small, p-k, 2^k, 0..100000), uniform, explicit squares and non-squares, x coordinates of "
+                "valid subgroup points. Non-trivial = a non-trivial 2-adic component (dlog != 0) or a root of unity.",
+        "oracle": "math/big: residue iff Jacobi = 1 (or v = 0); returned root squared == v; nil iff non-residue; input unchanged; "
+                  "GetPointFromX nil iff (a x^2-1)/(d x^2-1) is a non-residue (ModSqrt), otherwise exactly (x, larger|smaller "
+                  "root) and on the curve",
+        "assumptions": COMMON_ASSUMPTIONS,
+    },
+    "C15": {
+        "test": "TestC15", "variant": "fr",
+        "quick": {"shards": 16, "timeout": 1800, "matrix": [{"variant": "fr"}, {"variant": "fr_noadx"}]},
+        "thorough": {"shards": 32, "timeout": 14400, "matrix": [{"variant": "fr"}, {"variant": "fr_noadx"}]},
+        "rule": "boundary set: all 4-limb combinations of per-limb values {0,1,2^63,2^64-1,q_i-1,q_i,q_i+1} below r plus values "
+                "within +-2 of 0, r/2, r, R mod r, R^2 mod r, R^-1 mod r (raw limb patterns; the count is in "
+                "coverage.boundary_elements). FULL cross product of ordered pairs for Add, Sub, Mul, their portable generic "
+                "versions, Butterfly (asm and generic), Cmp, Equal, conversions, with rotating aliasing patterns; Div and Exp on "
+                "a seed-selected 1/29 slice of pairs (all pairs in thorough); every boundary element for Neg, Double, Square, "
+                "Inverse, MulBy3/5/13, SetBigInt (incl. +8r, -r), Mont round trip, generic neg/double, Sqrt/Legendre, "
+                "mulByConstant; the SAME limb patterns in value space (elements whose regular value is the pattern): full cross "
+                "product for Cmp/Equal/ordering/conversions/Butterfly, all unary operations, a 1/11 slice of mixed-space pairs "
+                "for the arithmetic; BatchInvert with zeros at chosen positions; plus rapid cases (boundary / sparse-bit / small-value "
+                "/ uniform operands, all aliasing patterns). Run in two build configurations (default with ADX detection, "
+                "-tags noadx), each also calling the portable generic functions through the hook. Non-trivial = (configuration, "
+                "boundary operand pair / element) (counted, distinct by construction).",
+        "oracle": "math/big on the raw limbs: value = limbs*2^-256 mod r, operation on integers mod r, expected limbs = value*2^256 "
+                  "mod r; results must be bit-identical to that fully reduced representation; Sqrt nil iff Jacobi = -1 and "
+                  "root^2 = x; inverse of 0 is 0; operands unchanged",
+        "assumptions": COMMON_ASSUMPTIONS + ["inputs are reduced (< r), as every constructor of the package guarantees"],
+    },
     "C16": {
         "test": "TestC16", "variant": "elem",
         "quick": {"shards": 16, "timeout": 900},
